@@ -75,9 +75,7 @@ def run(chk, replay_path):
         chk.model_violation("OptDecl", r)
         return
     g = tour.Graph()
-    for ln in r["lines"]["EDGE"]:
-        g.add(ln)
-    r["lines"]["EDGE"] = None
+    g.add_all(r["lines"]["EDGE"])
     root = json.dumps(dict(objs=[], groups=[], moved=False), separators=(",", ":"), sort_keys=True)
     paths, ncov, unreach = g.tours(root, max_len=30)
     cases = [dict(steps=[dict(op=g.edges[i][1]["op"], args=g.edges[i][1]["args"]) for i in p]) for p in paths]
